@@ -533,6 +533,11 @@ class ProfileMachine(Machine):
         st.trace.add('ee', digest(ee))
         if isinstance(ee, Raised):
             raise Violation('raises', 'calc_ee_at_radius', f'{where}: {ee!r}')
+        ee_obj = ee                      # what the caller holds (any type)
+        ee = call(lambda: float(self._val(ee_obj)))
+        if isinstance(ee, Raised):
+            raise Violation('reference', 'calc_ee_at_radius',
+                            f'{where}: ee({r}) = {ee_obj!r} is not a number')
         d = diff(np.asarray(float(ee)), np.asarray(float(prof[i])), 1e-9,
                  1e-12 * st.scale, check_dtype=False)
         if d:
@@ -560,7 +565,10 @@ class ProfileMachine(Machine):
         if not isinstance(pobj, Raised):
             pv = self._val(pobj)
             eec = float(min(max(eec, pv[0]), pv[last])) if last >= 1 else eec
-        back = call(o.calc_radius_at_ee, eec)
+        # the caller feeds the output of one interpolator into the other:
+        # the object it got back, unless it had to be clipped
+        back = call(o.calc_radius_at_ee,
+                    ee_obj if eec == float(ee) else eec)
         st.trace.add('rad', digest(back))
         if last < 1:
             # fewer than two monotone samples: the interpolator may refuse
@@ -589,7 +597,9 @@ class ProfileMachine(Machine):
         # the ee value must be attained only once on the whole curve for
         # the inverse to be the sampled radius
         tol = 1e-7 * max(1.0, r)
-        if not np.isfinite(back) or abs(float(back) - r) > tol:
+        bv = call(lambda: float(self._val(back)))
+        if isinstance(bv, Raised) or not np.isfinite(bv) or \
+                abs(bv - r) > tol:
             raise Violation('inverse', 'calc_radius_at_ee',
                             f'{where}: radius_at_ee(ee_at_radius({r})) = '
                             f'{back!r} (sample {i}, monotone prefix '
